@@ -4,8 +4,10 @@ from vlib import Case, Stream, BUILD, VERIF, model_cmd
 import c12coll as coll
 
 ID = "C12"
-LEAN_MODULES = ["HgVerif.Props.C12", "HgVerif.Props.C12Sample"] + list(coll.LEAN_MODULES)
-THEOREMS = [
+LEAN_MODULES = ["HgVerif.Props.C12", "HgVerif.Props.C12Sample", "HgVerif.Model.TieC12", "HgVerif.Model.Extracted"] + list(coll.LEAN_MODULES)
+USES_EXTRACT = True
+THEOREMS = ["HgVerif.Tie.tie_switchReloadRule",
+    
     "HgVerif.Switch.inv_reachable",
     "HgVerif.Switch.switch_old_dead",
     "HgVerif.Switch.lifeStep_meaning",
